@@ -1,30 +1,10 @@
 import Mathlib.Tactic.Ring
-/-! Prototype for C16, concrete layer: the byte format of one WAL frame as encoder.go / decoder.go / record.pb.go
-    write and read it — protobuf varints, the three fields of `walpb.Record`, the 8-byte little-endian length field
-    whose top byte carries the padding, zero padding to 8 bytes — and the round trip
-    `decodeFrame (encodeFrame r ++ rest) = some (r, rest)`, which is what the abstract torn-write argument
-    (WalTorn.lean) assumes of frames. (In the framework the definitions live in a core-only Model file and only the
-    proofs import a Mathlib tactic.) -/
+import RedisGoModel.Wal.Codec
+/-! C16, concrete layer, proofs: the round trips of the byte format defined in Codec.lean — varints, the three fields
+    of `walpb.Record`, the 8-byte length field with its padding bits, little-endian words — up to
+    `frame_roundtrip : decodeFrame (encodeFrame r ++ rest) = some (r, rest)`, which is what the abstract torn-write
+    argument (WalTorn.lean) assumes of frames. Definitions are core-only (Codec.lean); only proofs use a Mathlib tactic. -/
 namespace WalCodec
-abbrev Bytes := List UInt8
-
-/-! ### varints -/
-
-/-- `encodeVarintRecord` (written back to front in Go; the bytes are these) -/
-def encVarint (n : Nat) : Bytes :=
-  if n < 128 then [UInt8.ofNat n] else UInt8.ofNat (n % 128 + 128) :: encVarint (n / 128)
-decreasing_by omega
-
-/-- the generated decoding loop: `wire |= uint64(b&0x7F) << shift`, error at `shift ≥ 64` or end of input.
-    (`|` is `+` here because the new bits lie above the accumulated ones; truncation to 64 bits is the `%`.) -/
-def decVarintAux : Nat → Nat → Bytes → Option (Nat × Bytes)
-| _, _, [] => none
-| shift, acc, b :: r =>
-  if shift ≥ 64 then none
-  else if b.toNat < 128 then some ((acc + (b.toNat % 128) * 2 ^ shift) % 2 ^ 64, r)
-  else decVarintAux (shift + 7) ((acc + (b.toNat % 128) * 2 ^ shift) % 2 ^ 64) r
-
-def decVarint (bs : Bytes) : Option (Nat × Bytes) := decVarintAux 0 0 bs
 
 theorem pow_split (s : Nat) : 2 ^ (s + 7) = 128 * 2 ^ s := by rw [Nat.pow_add]; ring
 
@@ -32,7 +12,7 @@ theorem two_pow_64_split {s : Nat} (h : s ≤ 64) : 2 ^ 64 = 2 ^ (64 - s) * 2 ^ 
   rw [← Nat.pow_add]; congr 1; omega
 
 theorem varint_aux (n : Nat) : ∀ (s acc : Nat) (rest : Bytes), s < 64 → n < 2 ^ (64 - s) → acc < 2 ^ s →
-    decVarintAux s acc (encVarint n ++ rest) = some (acc + n * 2 ^ s, rest) := by
+    decVarintAux s acc (encVarint n ++ rest) = .ok (acc + n * 2 ^ s, rest) := by
   induction n using Nat.strongRecOn with
   | ind n ih =>
     intro s acc rest hs hn hacc
@@ -81,7 +61,7 @@ theorem varint_aux (n : Nat) : ∀ (s acc : Nat) (rest : Bytes), s < 64 → n < 
           = acc + (128 * (n / 128) + n % 128) * 2 ^ s := by ring
         _ = acc + n * 2 ^ s := by rw [this]
 
-theorem varint_roundtrip (n : Nat) (h : n < 2 ^ 64) (rest : Bytes) : decVarint (encVarint n ++ rest) = some (n, rest) := by
+theorem varint_roundtrip (n : Nat) (h : n < 2 ^ 64) (rest : Bytes) : decVarint (encVarint n ++ rest) = .ok (n, rest) := by
   unfold decVarint
   rw [varint_aux n 0 0 rest (by omega) (by simpa using h) (by simp)]
   simp
@@ -89,64 +69,25 @@ theorem varint_roundtrip (n : Nat) (h : n < 2 ^ 64) (rest : Bytes) : decVarint (
 theorem encVarint_ne_nil (n : Nat) : encVarint n ≠ [] := by
   rw [encVarint]; split <;> simp
 
-/-! ### walpb.Record -/
-
-structure Record where
-  type : Nat                 -- int64, as its uint64 image
-  crc  : Nat                 -- uint32
-  data : Option Bytes        -- nil vs. present
-deriving DecidableEq
-
-/-- `MarshalToSizedBuffer`: tag 0x08 type, tag 0x10 crc, and, if `Data != nil`, tag 0x1a length data -/
-def marshal (r : Record) : Bytes :=
-  [0x08] ++ encVarint r.type ++ ([0x10] ++ encVarint r.crc ++
-    (match r.data with
-     | none => []
-     | some d => [0x1a] ++ encVarint d.length ++ d))
-
-/-- the generated `Unmarshal` loop for field numbers 1–3 (anything else is rejected in this sketch; the framework
-    version mirrors `skipRecord` for unknown fields) -/
-def unmarshalAux : Nat → Record → Bytes → Option Record
-| 0, _, _ => none
-| fuel + 1, r, bs =>
-  if bs = [] then some r else
-  match decVarint bs with
-  | none => none
-  | some (wire, rest) =>
-    if wire / 8 = 1 ∧ wire % 8 = 0 then
-      match decVarint rest with
-      | none => none
-      | some (v, rest') => unmarshalAux fuel { r with type := v } rest'
-    else if wire / 8 = 2 ∧ wire % 8 = 0 then
-      match decVarint rest with
-      | none => none
-      | some (v, rest') => unmarshalAux fuel { r with crc := v % 2 ^ 32 } rest'
-    else if wire / 8 = 3 ∧ wire % 8 = 2 then
-      match decVarint rest with
-      | none => none
-      | some (len, rest') =>
-        if len ≥ 2 ^ 63 then none                      -- `byteLen < 0`
-        else if rest'.length < len then none           -- `postIndex > l`
-        else unmarshalAux fuel { r with data := some (rest'.take len) } (rest'.drop len)
-    else none
-
-def unmarshal (bs : Bytes) : Option Record := unmarshalAux (bs.length + 1) ⟨0, 0, none⟩ bs
-
-theorem tag_byte (t : Nat) (h : t < 128) (rest : Bytes) : decVarint (UInt8.ofNat t :: rest) = some (t, rest) := by
+theorem tag_byte (t : Nat) (h : t < 128) (rest : Bytes) : decVarint (UInt8.ofNat t :: rest) = .ok (t, rest) := by
   have := varint_roundtrip t (by omega) rest
   rw [encVarint, if_pos h] at this
   exact this
 
+theorem fieldNum_8 : fieldNum 8 = some 1 := by decide
+theorem fieldNum_16 : fieldNum 16 = some 2 := by decide
+theorem fieldNum_26 : fieldNum 26 = some 3 := by decide
+
 theorem step_type (f : Nat) (r : Record) (v : Nat) (hv : v < 2 ^ 64) (rest : Bytes) :
     unmarshalAux (f + 1) r (0x08 :: (encVarint v ++ rest)) = unmarshalAux f { r with type := v } rest := by
   rw [unmarshalAux, if_neg (by simp), show (0x08 : UInt8) = UInt8.ofNat 8 from rfl, tag_byte 8 (by omega)]
-  simp [varint_roundtrip v hv]
+  simp [varint_roundtrip v hv, fieldNum_8]
 
 theorem step_crc (f : Nat) (r : Record) (v : Nat) (hv : v < 2 ^ 32) (rest : Bytes) :
     unmarshalAux (f + 1) r (0x10 :: (encVarint v ++ rest)) = unmarshalAux f { r with crc := v } rest := by
   rw [unmarshalAux, if_neg (by simp), show (0x10 : UInt8) = UInt8.ofNat 16 from rfl, tag_byte 16 (by omega)]
   have hm : v % 4294967296 = v := Nat.mod_eq_of_lt (by simpa using hv)
-  simp [varint_roundtrip v (Nat.lt_of_lt_of_le hv (by decide)), hm]
+  simp [varint_roundtrip v (Nat.lt_of_lt_of_le hv (by decide)), hm, fieldNum_16]
 
 theorem step_data (f : Nat) (r : Record) (d : Bytes) (hd : d.length < 2 ^ 63) (rest : Bytes) :
     unmarshalAux (f + 1) r (0x1a :: (encVarint d.length ++ (d ++ rest))) = unmarshalAux f { r with data := some d } rest := by
@@ -154,10 +95,10 @@ theorem step_data (f : Nat) (r : Record) (d : Bytes) (hd : d.length < 2 ^ 63) (r
   have hd' : ¬ (9223372036854775808 ≤ d.length) := by
     have : (2 : Nat) ^ 63 = 9223372036854775808 := by decide
     omega
-  simp [varint_roundtrip d.length (Nat.lt_trans hd (by decide)), hd']
+  simp [varint_roundtrip d.length (Nat.lt_trans hd (by decide)), hd', fieldNum_26]
 
 theorem unmarshal_marshal (r : Record) (ht : r.type < 2 ^ 64) (hc : r.crc < 2 ^ 32)
-    (hd : ∀ d, r.data = some d → d.length < 2 ^ 63) : unmarshal (marshal r) = some r := by
+    (hd : ∀ d, r.data = some d → d.length < 2 ^ 63) : unmarshal (marshal r) = .ok r := by
   obtain ⟨ty, crc, data⟩ := r
   simp only at ht hc hd
   unfold unmarshal
@@ -181,17 +122,6 @@ theorem unmarshal_marshal (r : Record) (ht : r.type < 2 ^ 64) (hc : r.crc < 2 ^ 
     rw [List.append_nil] at this
     rw [this]
     simp [unmarshalAux]
-
-/-! ### the length field -/
-
-/-- `encodeFrameSize` -/
-def encodeFrameSize (n : Nat) : Nat × Nat :=
-  let pad := (8 - n % 8) % 8
-  (if pad ≠ 0 then n ||| ((0x80 ||| pad) <<< 56) else n, pad)
-
-/-- `decodeFrameSize` on the uint64 image of the length field (`lenField < 0` ⇔ top bit set) -/
-def decodeFrameSize (l : Nat) : Nat × Nat :=
-  (l &&& (2 ^ 56 - 1), if l ≥ 2 ^ 63 then (l >>> 56) &&& 7 else 0)
 
 theorem frameSize_lt (n : Nat) (h : n < 2 ^ 56) : (encodeFrameSize n).1 < 2 ^ 64 := by
   unfold encodeFrameSize
@@ -230,40 +160,12 @@ theorem frameSize_roundtrip (n : Nat) (h : n < 2 ^ 56) :
     refine Prod.ext ?_ rfl
     simp only; omega
 
-/-- `binary.LittleEndian.PutUint64` / `binary.Read` -/
-def le64 (n : Nat) : Bytes := (List.range 8).map (fun i => UInt8.ofNat (n / 256 ^ i % 256))
-def readLE64 : Bytes → Option (Nat × Bytes)
-| b0 :: b1 :: b2 :: b3 :: b4 :: b5 :: b6 :: b7 :: rest =>
-    some (b0.toNat + 256 * (b1.toNat + 256 * (b2.toNat + 256 * (b3.toNat + 256 * (b4.toNat + 256 * (b5.toNat +
-      256 * (b6.toNat + 256 * b7.toNat)))))), rest)
-| _ => none
-
 theorem le64_roundtrip (n : Nat) (h : n < 2 ^ 64) (rest : Bytes) : readLE64 (le64 n ++ rest) = some (n, rest) := by
   have hb : ∀ k, (UInt8.ofNat (k % 256)).toNat = k % 256 := by
     intro k; rw [UInt8.toNat_ofNat']; omega
   simp only [le64, List.range, List.range.loop, List.map_cons, List.map_nil, List.cons_append, List.nil_append, readLE64, hb]
   congr 2
   omega
-
-/-! ### one frame -/
-
-def encodeFrame (r : Record) : Bytes :=
-  let body := marshal r
-  le64 (encodeFrameSize body.length).1 ++ (body ++ List.replicate (encodeFrameSize body.length).2 0)
-
-/-- `decodeRecord` without the CRC chain and the torn-entry test: `none` = error or end of the written part -/
-def decodeFrame (bs : Bytes) : Option (Record × Bytes) :=
-  match readLE64 bs with
-  | none => none
-  | some (l, rest) =>
-    if l = 0 then none
-    else
-      let (recBytes, padBytes) := decodeFrameSize l
-      if rest.length < recBytes + padBytes then none
-      else
-        match unmarshal (rest.take recBytes) with
-        | none => none
-        | some r => some (r, rest.drop (recBytes + padBytes))
 
 theorem frame_roundtrip (r : Record) (ht : r.type < 2 ^ 64) (hc : r.crc < 2 ^ 32)
     (hd : ∀ d, r.data = some d → d.length < 2 ^ 63) (hsz : (marshal r).length < 2 ^ 56) (rest : Bytes) :
